@@ -7,7 +7,7 @@ Local Open Scope N_scope.
 Definition genuineb (n : net) (q : qc) : bool :=
   negb (q_sigok q) ||
   negb ((vw_phase (q_view q) =? Phase_PROPOSE_VOTE) || (vw_phase (q_view q) =? Phase_PRECOMMIT_VOTE)) ||
-  forallb (fun s => negb (is_correct n s) || existsb (hv_eqb (mkHV s (q_view q) (q_block q) (q_results q))) (n_votes n))
+  forallb (fun s => negb (is_correct n s) || existsb (hv_eqb (mkHV s (q_view q) (q_block q) (q_results q) (q_proposer q))) (n_votes n))
           (q_signers q).
 Definition genuine_optb (n : net) (q : option qc) : bool := match q with Some h => genuineb n h | None => true end.
 Definition action_okb (n : net) (a : action) : bool :=
